@@ -56,6 +56,8 @@ def run(ctx):
     ctx.floor("E1 effects behind no-op guard", 1000)
     ctx.floor("E2 refusals before effects", 300)
     ctx.floor("E5 children assignment order", 500)
+    _rule_argument_materialised_first(ctx, typer)
+    _rule_child_type_check_total(ctx, typer)
     # raise sites present (anchors): type check (NodeMixin only), duplicates, loop x2
     import ast
     from ..model import AnalysisError
@@ -99,3 +101,73 @@ def _raised_classes(fn, exc):
             k = max(1, len(msgs))
         return [name] * k
     return [ast.unparse(exc)]
+
+
+def _rule_argument_materialised_first(ctx, typer):
+    """E5: the iterable handed to `children =` is turned into a tuple BEFORE anything else looks at it; every other use
+    of the parameter is dominated by that conversion (a one-shot iterator validated first would be empty afterwards)"""
+    import ast
+    from .common import cfg_nodes_containing, walk_own
+    for m in ("NodeMixin", "LightNodeMixin"):
+        f = ctx.p.func(m, "children", "setter")
+        prm = [x for x in f.posparams if x != f.selfname][0]
+        cfg = typer.cfg_of(f)
+        conv = []
+        for cn in cfg.stmt_nodes(("stmt",)):
+            a = cn.ast
+            if isinstance(a, ast.Assign) and isinstance(a.value, ast.Call) and isinstance(a.value.func, ast.Name) \
+                    and a.value.func.id in ("tuple", "list") and len(a.value.args) == 1 and isinstance(a.value.args[0], ast.Name) \
+                    and a.value.args[0].id == prm:
+                conv.append(cn)
+        if not conv:
+            ctx.viol("E5", f, f.node, "the assigned iterable is never materialised with tuple(...): a generator is consumed by the first "
+                     "loop over it", construct="%s.children.setter: no materialisation" % m)
+            continue
+        conv_args = {id(c.ast.value.args[0]) for c in conv}
+        bad = None
+        for x in walk_own(f.node):
+            if isinstance(x, ast.Name) and x.id == prm and isinstance(x.ctx, ast.Load) and id(x) not in conv_args:
+                for h in cfg_nodes_containing(cfg, x):
+                    if not any(cfg.dominates(c, h) for c in conv):
+                        bad = x
+        if bad is not None:
+            ctx.viol("E5", f, bad, "the assigned iterable `%s` is used before it has been turned into a tuple: a one-shot iterator "
+                     "(generator, reversed, filter) is exhausted by that use and the children end up empty" % prm,
+                     construct="%s.children.setter: argument used before tuple()" % m)
+        else:
+            ctx.inst("E5", f, conv[0].ast, "argument materialised before any other use")
+
+
+def _rule_child_type_check_total(ctx, typer):
+    """E2: a child that is not a tree node is refused - with no exception for None (unlike the parent, None is not a
+    legal child)"""
+    import ast
+    from .common import none_test
+    cls = ctx.p.cls("NodeMixin")
+    found = False
+    for f in cls.funcs():
+        cfg = typer.cfg_of(f)
+        for rn in cfg.stmt_nodes(("raisestmt",)):
+            gs = cfg.guards_of(rn)
+            subj = None
+            for c, o, _ in gs:
+                if isinstance(c, ast.Call) and isinstance(c.func, ast.Name) and c.func.id == "isinstance" and o is False and c.args:
+                    subj = norm(c.args[0])
+            if subj is None:
+                continue
+            # only the per-child check: its subject is a loop variable over the children
+            loops = [lp for lp in ast.walk(f.node) if isinstance(lp, ast.For) and isinstance(lp.target, ast.Name) and lp.target.id == subj]
+            if not loops:
+                continue
+            found = True
+            esc = [c for c, o, _ in gs if none_test(c) is not None and none_test(c)[0] == subj]
+            if esc:
+                ctx.viol("E2", f, esc[0], "the type check of a child is skipped when the child is None (`%s`): None is accepted as a child and "
+                         "fails later, after other children were already moved" % norm(esc[0]), construct="child type check exempts None")
+            else:
+                ctx.inst("E2", f, rn.ast, "every non-node child is refused")
+    if not found:
+        ctx.notes.append("E2: per-child type check not located (covered by the raise-site count)")
+
+
+from ..model import norm  # noqa: E402
